@@ -274,7 +274,8 @@ structure Rep (P : Offsets.Parsers (Prim R) (Dict R)) (bytes : List UInt8) (st :
   len : bytes.length = st.len
   small : bytes.length ≤ fileMax
   header : ∀ ext : List UInt8, (bytes ++ ext).length ≤ fileMax → Offsets.locateStart (bytes ++ ext) = .ok st.start
-  xref : Offsets.locateXref bytes = .ok st.startxref
+  /-- (a file that has no cross-reference section yet — the bare header a builder starts from — has no `startxref`) -/
+  xref : st.secs ≠ [] → Offsets.locateXref bytes = .ok st.startxref
   objs : ∀ o ∈ st.objs, ObjRep P bytes o
   secs : ∀ s ∈ st.secs, SecRep P bytes s
 
@@ -411,7 +412,7 @@ theorem open_of_rep (P : Offsets.Parsers (Prim R) (Dict R)) (bytes : List UInt8)
     cases older with
     | nil => simp only [Offsets.Linked]; rw [hprev, h4]; rfl
     | cons r' rest' => exact ⟨by simp only; rw [hprev, h4]; rfl, h3⟩
-  have := Offsets.loadTable_chain P bytes st.start fuel ⟨st.startxref, s.subs, T⟩ older s.size hrep.xref
+  have := Offsets.loadTable_chain P bytes st.start fuel ⟨st.startxref, s.subs, T⟩ older s.size (hrep.xref (List.ne_nil_of_mem hmem))
     (by simp only; omega) (by simp only; omega) (by simp only; rw [← hoff]; exact hT) hsize
     (by unfold Offsets.maxId; unfold MAX_ID at hsz; exact hsz) h2 hlink h5 (by omega)
   simp only [List.map_cons, h1, hm, Offsets.withTrailer] at this
@@ -679,7 +680,8 @@ theorem rep_saveB (fmt : R → List UInt8) (env : Env R) (hd : env.decrypt = non
     have := hrep.header (revisionBytes fmt b i ++ ext) (by rw [← List.append_assoc, ← sb.bytes]; exact hx)
     rw [← List.append_assoc, ← sb.bytes] at this
     exact this
-  · rw [bk.startxref, sb.bytes]
+  · intro _
+    rw [bk.startxref, sb.bytes]
     simp only [revisionBytes, ← List.append_assoc]
     exact locateXref_tail _ i (by unfold fileMax at hsmall; omega)
   · intro o ho
